@@ -297,9 +297,13 @@ class Textgrid:
             )
 
         maxTimestamp = self.maxTimestamp
-        if doShrink is True:
+        if doShrink is True and maxTimestamp is not None:
             # Computed exactly as the tiers compute their new maxTimestamp
-            maxTimestamp = start + (maxTimestamp - end)
+            # (only what lies inside the span can be cut out of it)
+            clippedStart = max(start, self.minTimestamp)
+            clippedEnd = min(end, maxTimestamp)
+            if clippedStart < clippedEnd:
+                maxTimestamp = clippedStart + (maxTimestamp - clippedEnd)
 
         newTG = Textgrid(self.minTimestamp, self.maxTimestamp)
         for tier in self.tiers:
